@@ -23,7 +23,7 @@ from concurrent.futures import ThreadPoolExecutor
 
 VERIF = os.path.dirname(os.path.dirname(os.path.abspath(__file__)))
 SPEC = os.path.join(VERIF, "spec")
-HARNESS = os.path.join(VERIF, "harness")
+HARNESS = os.environ.get("VERIF_HARNESS") or os.path.join(VERIF, "harness")
 EVIDENCE = os.path.join(VERIF, "evidence")
 REPLAY = os.path.join(VERIF, "replay")
 KNOWN = os.path.join(VERIF, "known-findings.txt")
@@ -61,22 +61,24 @@ def sh(cmd, timeout=None, cwd=None, env=None, check=True, stdin=None):
 _built = {}
 
 
-def build(pkg="jjconf"):
-    """cargo build the harness package against /repo's working tree (hooks on)."""
-    if pkg in _built:
-        return _built[pkg]
+def build(bin, pkg=None):
+    """cargo build one harness binary against /repo's working tree (hooks on).
+    bin 'jjcli' lives in package jjcli, every other binary in package jjconf (src/bin/<bin>.rs)."""
+    if bin in _built:
+        return _built[bin]
+    pkg = pkg or ("jjcli" if bin == "jjcli" else "jjconf")
     t0 = time.time()
     lock = os.path.join(HARNESS, "Cargo.lock")
     if not os.path.exists(lock):
         shutil.copy("/repo/Cargo.lock", lock)
     env = {"CARGO_NET_OFFLINE": "true"}
-    rc, out, err = sh(["cargo", "build", "--offline", "-p", pkg], cwd=HARNESS, env=env,
+    rc, out, err = sh(["cargo", "build", "--offline", "-p", pkg, "--bin", bin], cwd=HARNESS, env=env,
                       timeout=3000, check=False)
     if rc != 0:
         raise ToolError("harness build failed:\n" + err[-6000:])
-    path = os.path.join(HARNESS, "target", "debug", pkg)
-    _built[pkg] = path
-    log("built %s in %.1fs" % (pkg, time.time() - t0))
+    path = os.path.join(HARNESS, "target", "debug", bin)
+    _built[bin] = path
+    log("built %s in %.1fs" % (bin, time.time() - t0))
     return path
 
 
@@ -287,8 +289,9 @@ class Ctx:
                 return
         self.violations.append(v)
 
-    def harness(self, pkg, args, timeout=1800, check=True, env=None):
-        b = build(pkg)
+    def harness(self, bin, args, timeout=1800, check=True, env=None):
+        """Build (from /repo's working tree) and run harness binary `bin` with args."""
+        b = build(bin)
         e = {"VERIF_SEED": str(self.seed), "VERIF_TIER": self.tier, "RUST_BACKTRACE": "0"}
         if env:
             e.update(env)
